@@ -589,6 +589,196 @@ def explore_wire(res, tier, rng, model_ok):
     res.exhaustive['wire_byte_streams_compared'] = len(cases)
 
 
+# ---------------------------------------------------------------------------------------------
+# write faults: `sendall` of an application call's frame fails with the errno values a real socket produces, after the
+# socket has taken any number of the frame's bytes (0 .. all but one).  The simulated socket records every sendall ATTEMPT
+# with the bytes it took (world.wire), so the oracle sees the byte stream a peer would see, call by call.
+#   accepted call (returns normally)  -> the bytes it put on the wire are exactly one complete valid client frame carrying the payload
+#   call that raises                  -> the bytes it put on the wire are a prefix of ONE valid frame for the payload (the part the
+#                                        socket took before the failure): nothing is written after a failed write, nothing twice
+#   a call made before any fault whose write did not fail is accepted
+# The model (core driver, `wfail=`) runs the same scenarios: a failed write is a failed call whatever the errno.
+
+import errno as _errno
+
+WRITE_ERRNOS = [('EPIPE', _errno.EPIPE), ('ECONNRESET', _errno.ECONNRESET), ('EINTR', _errno.EINTR), ('EAGAIN', _errno.EAGAIN),
+                ('ETIMEDOUT', _errno.ETIMEDOUT), ('none', None), ('timeout', 'timeout')]
+if _errno.EWOULDBLOCK != _errno.EAGAIN:
+    WRITE_ERRNOS.append(('EWOULDBLOCK', _errno.EWOULDBLOCK))
+
+
+def fault_calls(rng, n):
+    """one valid call of every kind with an n-byte payload (control frames and close reasons cut to what fits):
+       (act, opcode, payload, may be compressed)"""
+    import json as _json
+    b = gen_core.rand_bytes(rng, n)
+    c = gen_core.rand_bytes(rng, min(n, 125))
+    t = gen_core.rand_text(rng, n)
+    reason = gen_core.rand_text(rng, min(n, 123))
+    code = rng.choice([1000, 1001, 3000, 4999])
+    obj = {'k': 'v' * n}
+    return [(('send_text', ('s', [ord(ch) for ch in t.decode('utf-8')]), True), 1, t, True),
+            (('send_binary', ('b', b), True), 2, b, True),
+            (('send_json', ('obj', obj)), 1, _json.dumps(obj).encode('utf-8'), True),
+            (('send_ping', ('b', c)), 9, c, False),
+            (('send_pong', ('b', c)), 10, c, False),
+            (('close', code, ('b', reason)), 8, struct.pack('!H', code) + reason, False)]
+
+
+def fault_scenarios(rng, tier):
+    """(scenario, wpart {write index: bytes taken}, [(opcode, payload, compressible) per call], label)"""
+    out = []
+
+    def add(calls, fails, parts, ename, eno, neg, label):
+        sc = Scenario([], {2: [c[0] for c in calls]}, prate=0, compress=neg, wfail=set(fails), werrno=eno)
+        sc.key_seed = rng.randrange(16)
+        extra = b'Sec-WebSocket-Extensions: permessage-deflate\r\n' if neg else b''
+        sc.env = reads([sc.good_reply(extra)]) + [('wait', 1, ('eof',))]
+        out.append((sc, dict(zip(fails, parts)), [(c[1], c[2], c[3]) for c in calls], '%s-%s' % (label, ename)))
+
+    filler = (('send_binary', ('b', b'\x01\x02'), False), 2, b'\x01\x02', False)
+    # (1) short frames: EVERY number of bytes taken, every errno, every kind of call, the fault in the first call
+    for kind in range(6):
+        for ename, eno in WRITE_ERRNOS:
+            calls = fault_calls(rng, 3)
+            # header 2 + key 4 + payload (a close payload has two more bytes, the json text is longer): every position up to the longest
+            for taken in range(0, 9 + 14):
+                c = calls[kind]
+                flen = 6 + len(c[2])
+                if taken >= flen:
+                    break
+                add([c] if c[1] == 8 else [c, filler], [1], [taken], ename, eno, False, 'short-every-position')
+    # (2) lengths on both sides of the 7/16/64-bit encodings: positions inside the header, the key, the payload, all but one / two
+    lens = [0, 1, 125, 126, 300] + ([65535, 65536] if tier == 'thorough' else [65536])
+    for n in lens:
+        for ename, eno in WRITE_ERRNOS:
+            calls = fault_calls(rng, n)
+            kinds = range(6) if tier == 'thorough' else rng.sample(range(6), 3)
+            for kind in kinds:
+                c = calls[kind]
+                hdr = 2 + (0 if len(c[2]) < 126 else 2 if len(c[2]) < 65536 else 8)
+                pos = [0, 1, 2, hdr - 1, hdr, hdr + 1, hdr + 3, hdr + 4, hdr + 5, hdr + 4 + len(c[2]) // 2, -2, -1, rng.randrange(0, hdr + 4 + max(1, len(c[2])))]
+                for taken in (pos if tier == 'thorough' else rng.sample(pos, 3) + [-1]):
+                    neg = c[3] and rng.random() < 0.3
+                    add([c] if c[1] == 8 else [c, filler], [1], [taken], ename, eno, neg, 'boundary-len%d%s' % (n, '-deflate' if neg else ''))
+    # (3) the fault in a later call (a clean call first), and two failing writes in a row (a second attempt, if any, fails too)
+    for ename, eno in WRITE_ERRNOS:
+        for rep in range(2 if tier == 'quick' else 8):
+            calls = fault_calls(rng, rng.choice([0, 2, 7, 40, 125, 126]))
+            a, b = rng.sample(calls[:5], 2)
+            last = rng.choice(calls)
+            add([a, b, last], [2], [rng.choice([0, 1, 2, 5, 6, 7, -1])], ename, eno, False, 'second-call')
+            add([a, b, last], [1, 2], [rng.choice([0, 1, 3, 6, -1]), rng.choice([0, 2, 6, -1])], ename, eno, False, 'two-failing-writes')
+            add([a, b, last], [1, 3], [rng.choice([0, 1, 3, 6, -1]), rng.choice([0, 2, 6, -1])], ename, eno, False, 'two-faults-apart')
+    return out
+
+
+def real_fault(item):
+    """item = (scenario json, [[write index, bytes taken] ...]); returns dict(trace, wire=<every sendall attempt>, calls)"""
+    import world as _world
+    sc_json, parts = item
+    sc = coreutil.scenario_from_json(sc_json)
+    sc.wpart = {int(k): int(n) for k, n in parts}
+    ws = []
+    try:
+        tr = _world.run_chain([sc], worlds=ws)[0]
+    except runner.HangError:
+        return dict(trace='HANG', wire=[], calls=[])
+    return dict(trace=tr, wire=ws[0].wire, calls=[[c[0], c[1], c[2]] for c in ws[0].calls])
+
+
+def judge_one_frame(wire, op, payload, may_compress):
+    """None if `wire` is exactly one complete valid client frame (FIN, RSV clear unless compression negotiated and requested,
+       shortest length, masked) that carries `payload`; else what is wrong"""
+    try:
+        fr = decode_client_frames(wire)
+    except ClientFrameError as e:
+        return 'not a sequence of complete valid client frames (%s)' % e
+    if len(fr) != 1:
+        return '%d frames' % len(fr)
+    f = fr[0]
+    if (f['fin'], f['rsv2'], f['rsv3'], f['opcode']) != (1, 0, 0, op):
+        return 'header bits wrong: %s' % {k: f[k] for k in ('fin', 'rsv1', 'rsv2', 'rsv3', 'opcode')}
+    if f['rsv1']:
+        if not may_compress:
+            return 'RSV1 set although compression was not negotiated or not requested'
+        try:
+            plain = zlib.decompressobj(-15).decompress(f['payload'] + b'\x00\x00\xff\xff')
+        except zlib.error as e:
+            return 'compressed payload does not inflate (%s)' % e
+        return None if plain == payload else 'inflated payload differs from the caller\'s data'
+    return None if f['payload'] == payload else 'unmasked payload differs from the caller\'s data'
+
+
+def judge_fault_run(r, exp, neg):
+    """oracle for one write-fault run; returns a list of (what, observed) - empty if the run satisfies the property"""
+    bad = []
+    tk = toks(r['trace'])
+    broken = False                       # a write has failed or a close went out: later calls may legitimately be refused
+    for i, (n0, kind, result) in enumerate(r['calls']):
+        if i >= len(exp):
+            break
+        op, payload, czip = exp[i]
+        rpos = next((k for k in range(n0, len(tk)) if tk[k].startswith('R:')), len(tk))
+        att = [e for e in r['wire'] if n0 <= e['pos'] < rpos]
+        taken = b''.join(bytes.fromhex(e['data'])[:e['acc']] for e in att)
+        failed = [e for e in att if e['err'] is not None]
+        desc = 'call %d (%s): %s' % (i, kind, '; '.join('sendall of %d bytes %s' % (len(e['data']) // 2, 'taken' if e['err'] is None else 'failed with %s after %d bytes' % (e['err'], e['acc'])) for e in att) or 'no sendall')
+        obs = dict(result=result, on_wire=taken.hex()[:160], attempts=[(e['acc'], len(e['data']) // 2, e['err']) for e in att])
+        if result == 'ok' and kind == 'close' and failed:
+            # close() does not raise on a dead transport: it reports nothing to the caller and the session ends through the event
+            # stream (the documented behaviour all other properties build on).  Such a close is not an accepted write: it is judged
+            # like a call that raised - what it put on the wire is one complete frame or a prefix of one, nothing after the failure
+            first = bytes.fromhex(att[0]['data'])
+            why = judge_one_frame(first, op, payload, False)
+            if why:
+                bad.append(('%s: the data handed to sendall is not one valid frame with the caller\'s payload: %s' % (desc, why), obs))
+            elif taken != first[:len(taken)]:
+                bad.append(('%s: a write of this close() failed, but the %d bytes it put on the wire are not a prefix of one frame: bytes were written after the failed write (a retry repeats what the socket had already taken)' % (desc, len(taken)), obs))
+        elif result == 'ok':
+            why = judge_one_frame(taken, op, payload, neg and czip)
+            if why:
+                bad.append(('%s returned normally, but the %d bytes it put on the wire are not exactly one complete frame with the caller\'s payload: %s' % (desc, len(taken), why), obs))
+        else:
+            if not failed and not broken:
+                bad.append(('%s raised %s although the arguments are valid and no write had failed' % (desc, result), obs))
+            if att:
+                first = bytes.fromhex(att[0]['data'])
+                why = judge_one_frame(first, op, payload, neg and czip)
+                if why:
+                    bad.append(('%s: the data handed to sendall is not one valid frame with the caller\'s payload: %s' % (desc, why), obs))
+                elif taken != first[:len(taken)]:
+                    bad.append(('%s raised %s, but the %d bytes it put on the wire are not a prefix of one frame: bytes were written after the failed write (a retry repeats what the socket had already taken)' % (desc, result, len(taken)), obs))
+        if failed or kind == 'close':
+            broken = True
+    return bad
+
+
+def explore_write_faults(res, tier, rng, model_ok):
+    from world import scenario_line
+    cases = fault_scenarios(rng, tier)
+    js = [coreutil.scenario_to_json(sc) for sc, _, _, _ in cases]
+    items = [(j, sorted(parts.items())) for j, (_, parts, _, _) in zip(js, cases)]
+    reals = runner.parallel_map('props.c03', 'real_fault', items, chunk=16)
+    lines = [scenario_line(sc) for sc, _, _, _ in cases]
+    models = runner.model_run(lines) if model_ok else [None] * len(lines)
+    for (sc, parts, exp, label), item, r, line, model in zip(cases, items, reals, lines, models):
+        res.case(('write-fault', label, tuple(sorted(parts.items())), tuple(a[0] for a in sc.reactions[2]), tuple(len(e[1]) for e in exp), sc.compress), nontrivial=True)
+        res.count('write-fault-' + label)
+        if not isinstance(r, dict) or 'wire' not in r:
+            res.crashes.append(r if isinstance(r, dict) else dict(error=str(r))); continue
+        inp = dict(scenario=item[0], wpart=[list(p) for p in item[1]])
+        if not any(e['err'] is not None for e in r['wire']):
+            res.failures.append(dict(cls='write-fault', what='harness: the injected write fault was never reached (%s)' % label, input=inp, observed=r['trace'][-300:])); continue
+        for what, obs in judge_fault_run(r, exp, sc.compress)[:1]:
+            res.failures.append(dict(cls='write-fault', what='%s [errno %s]: %s' % (label, sc.werrno, what), input=inp, observed=obs,
+                                     expected='an accepted call puts exactly one complete frame on the wire; a call whose write failed raises and writes nothing more'))
+        res.traces_validated += 1
+        if model is not None and r['trace'] != model:
+            res.diffs.append(dict(input=line[:3000], real=r['trace'][-1500:], model=model[-1500:], scenario=item[0], wpart=inp['wpart']))
+    res.exhaustive['write_fault_short_frame_positions_x_errnos_x_call_kinds'] = sum(1 for c in cases if c[3].startswith('short-every-position'))
+
+
 def explore(res, tier, seed, model_ok=True):
     import gencheck   # differential test of the translated code (Generated/Code.lean) against the original Python
     gencheck.run(res, 'C03', tier, seed, model_ok)
@@ -601,6 +791,8 @@ def explore(res, tier, seed, model_ok=True):
                 'the model\'s specification decoder against the independent decoder on valid frames, frame sequences and header malformations (unmasked, truncated, non-minimal lengths, 2^63); '
                 'histories: 8 calls (compressed and not, control frames) in one connection under 10 reply-extension spellings (incl. whitespace around the equals sign and quoted values) (window bits, no_context_takeover either side, none), inflated by a peer configured from the REPLY BYTES, '
                 'and the same on ONE WebSocket object connected 2 or 3 times with every ordered pair of negotiations (each connection judged by its own negotiation, and against the model of a fresh connection); '
+                'write faults: sendall of a call\'s frame fails with EPIPE / ECONNRESET / EINTR / EAGAIN(=EWOULDBLOCK) / ETIMEDOUT / no errno / socket.timeout after the socket took k bytes - every k from 0 to all-but-one on short frames of every call kind, header / key / payload / last-byte positions at payload lengths 0, 1, 125, 126, 300, 65536 (plain and deflate), in the first or a later call, two failing writes in a row or apart; '
+                'judged on the bytes each call put on the wire (every sendall attempt recorded with the bytes taken): accepted call = exactly one complete frame, raising call = a prefix of one frame and nothing after the failed write; also compared with the model; '
                 'non-trivial = every call; distinct by call')
     try:
         bad = real_mask_table(None)
@@ -685,6 +877,7 @@ def explore(res, tier, seed, model_ok=True):
     explore_lanemech(res, tier, random.Random(seed * 7919 + 4), model_ok)
     explore_histories(res, tier, rng, model_ok)
     explore_wire(res, tier, rng, model_ok)
+    explore_write_faults(res, tier, random.Random(seed * 7919 + 5), model_ok)     # its own stream: the other generators keep their cases
     res.samples += [pairs[0][1][-200:], pairs[len(pairs) // 2][1][-200:]]
 
 
@@ -703,6 +896,14 @@ def replay(rp):
         return 0
     if isinstance(inp, list) and len(inp) == 2 and rp.get('cls') == 'mask-table':
         print('mask_payload(%s, %s) -> %s' % (inp[0], inp[1], real_mask(inp)))
+        return 0
+    if rp.get('cls') == 'write-fault' and isinstance(inp, dict):
+        r = real_fault((inp['scenario'], inp['wpart']))
+        print(r['trace'])
+        for e in r['wire']:
+            print('sendall #%d (trace position %d): %d bytes, %s: %s' % (e['k'], e['pos'], len(e['data']) // 2,
+                  'all taken' if e['err'] is None else 'FAILED errno=%s after %d bytes were taken' % (e['err'], e['acc']), e['data'][:120]))
+        print('calls (trace position, kind, result): %s' % (r['calls'],))
         return 0
     if rp.get('cls') == 'wire-bytes' and isinstance(inp, dict):
         r = real_wire(inp)
